@@ -14,8 +14,28 @@ import copy
 from . import coqrun
 
 
+DRIVER_JOBS = {}      # driver file -> number of driver processes to run side by side (cases are independent of each other)
+
+
+def _run_driver(ctx, driver, cases, sanitize):
+    jobs = DRIVER_JOBS.get(driver, 1)
+    if jobs <= 1 or len(cases) < 4 * jobs:
+        return ctx.run_driver(driver, cases, sanitize=sanitize)
+    import concurrent.futures
+    n = (len(cases) + jobs - 1) // jobs
+    chunks = [cases[i:i + n] for i in range(0, len(cases), n)]
+    with concurrent.futures.ThreadPoolExecutor(max_workers=len(chunks)) as ex:
+        res = list(ex.map(lambda ch: ctx.run_driver(driver, ch, sanitize=sanitize), chunks))
+    obs = []
+    for (rc, o, err), ch in zip(res, chunks):
+        if rc != 0 or o is None or len(o) != len(ch):
+            return rc or 1, None, err
+        obs += o
+    return 0, obs, ""
+
+
 def evaluate(ctx, driver, cases, to_term, header, case_type, tag, sanitize=False, shard=1000):
-    rc, obs, err = ctx.run_driver(driver, cases, sanitize=sanitize)
+    rc, obs, err = _run_driver(ctx, driver, cases, sanitize)
     if rc != 0 or obs is None or len(obs) != len(cases):
         return None, None, None, "driver %s failed rc=%s: %s" % (driver, rc, err[-1500:])
     terms = [to_term(c, o) for c, o in zip(cases, obs)]
